@@ -285,13 +285,6 @@ package core
 //@   ensures stats != nil && stats.RoutingDecision != nil ==> len(ghost(w).hdr["X-Olla-Routing-Strategy"]) == 1 && ghost(w).hdr["X-Olla-Routing-Strategy"][0] == stats.RoutingDecision.Strategy && len(ghost(w).hdr["X-Olla-Routing-Decision"]) == 1 && ghost(w).hdr["X-Olla-Routing-Decision"][0] == stats.RoutingDecision.Action
 //@   ensures stats != nil && stats.RoutingDecision != nil && stats.RoutingDecision.Reason != "" ==> len(ghost(w).hdr["X-Olla-Routing-Reason"]) == 1 && ghost(w).hdr["X-Olla-Routing-Reason"][0] == stats.RoutingDecision.Reason
 
-//@ func ExtractProviderMetrics
-//@   trusted not yet under contract (metrics extraction belongs to C20): assumed to write only stats.ProviderMetrics
-//@   modifies ports.RequestStats.ProviderMetrics
-
-//@ func AppendProviderMetricsToLog
-//@   trusted logging helper
-
 //@ ghost var served int
 //@ extern (net/http.Handler).ServeHTTP(w, r)
 //@   modifies *
@@ -307,3 +300,15 @@ package core
 //@   trusted
 //@   modifies ghost remaining, ghost backing
 //@   ensures res1 == nil ==> res0 != nil && res0.Body != nil && res0.Header != nil
+
+// ---- C20: provider metrics taken from the tail of a response
+//@ func ExtractProviderMetrics
+//@   property C20
+//@   safety
+//@   requires stats != nil
+//@   modifies ports.RequestStats.ProviderMetrics
+//@   ensures stats.ProviderMetrics == nil || stats.ProviderMetrics == old(stats.ProviderMetrics) || finiteMetrics(stats.ProviderMetrics)
+
+//@ func AppendProviderMetricsToLog
+//@   property C20
+//@   safety
